@@ -136,6 +136,10 @@ func Run(c *kernel.Ctx) {
 		s.sample()
 		return
 	}
+	if !s.faultEvidence() {
+		s.sample()
+		return
+	}
 	nt := false
 	if !s.extreme() {
 		ok, ran := s.splits()
